@@ -27,10 +27,18 @@ def SUB(api, mut, nb=-3, na=30, sknb=0, skna=0, k="k1", e="e1", n="n1", prime=Fa
 
 
 B = []
-def beh(id_, props, ops, sw=False, nidl=False, so=False, nide=False):
-    B.append(dict(id=id_, props=props, cfg=dict(sw=sw, nidl=nidl, so=so, nide=nide, certKeys=["k1", "k2", "k3"], tokens=["t1", "t2"]), ops=ops))
+def beh(id_, props, ops, sw=False, nidl=False, so=False, nide=False, be="inmem"):
+    B.append(dict(id=id_, props=props, cfg=dict(sw=sw, nidl=nidl, so=so, nide=nide, be=be, rmerr=(be == "file"), certKeys=["k1", "k2", "k3"], tokens=["t1", "t2"]), ops=ops))
 
 
+def FR(t, ka, kb, e="e1", be="inmem"): return dict(op="FetchRace", t=t, ka=ka, kb=kb, e=e, be=be)
+# overlapping fetches presenting the same token: known finding KF-C06-1 on the in-memory back end; the file back end refuses the loser
+beh("kf_c06_race", ["C06"], [T("t1", "s1"), FR("t1", "k1", "k2"), F("k3", "e1", "t1"), T("t2"), FR("t2", "k3", "k1"), FR("t2", "k3", "k2")])
+beh("kf_c06_racew", ["C06"], [T("t1"), FR("t1", "k2", "k1", "e2")], sw=True)
+for sw in (False, True):
+    beh("f06_race_file" + ("w" if sw else ""), ["C06"], [T("t1", "s1"), FR("t1", "k1", "k2", be="file"), F("k3", "e1", "t1"), F("k1", "e1", "t1"), T("t2"), F("k3", "e2", "t2", "zero"), F("k3", "e2", "t2", "neg"),
+                                                          FR("t2", "k3", "k1", "e2", be="file"), FR("t2", "k3", "k2", be="file")], sw=sw, be="file")
+beh("f06_lifetimes", ["C06", "C01"], [T("t1"), F("k1", "e1", "t1", "zero"), F("k1", "e1", "t1", "neg"), F("k1", "e1", "t1", "tiny"), F("k1", "e1", "t1"), T("t2", "s1"), F("k2", "e1", "t2", "neg"), F("k2", "e1", "t2", "mid")])
 for sw in (False, True):
     x = "w" if sw else ""
     beh("f01_altered" + x, ["C01"], [A("k1", "e1", "n1", "s1"), F("k1", "e2", "n1"), F("k1", "e1", "n2"), F("k2", "e1", "n1"), F("k1", "e1", "n1"),
